@@ -23,8 +23,14 @@ struct Op {
     double w = 0;
     unsigned k = 0;
     bool force = false;
+    bool rejected = false; // out-of-range index or shrinking resize: must throw, denotes no change
     std::string str() const {
         std::ostringstream o;
+        if (rejected) o << "rejected: ";
+        if (rejected && kind == RESIZE) {
+            o << "resize(" << k << ")";
+            return o.str();
+        }
         switch (kind) {
         case ADD: o << "addEdge(" << i << "," << j << "," << wstr(w) << (force ? ",force=true)" : ")"); break;
         case SETW: o << "setEdgeWeight(" << i << "," << j << "," << wstr(w) << ")"; break;
@@ -95,6 +101,7 @@ template <class G> struct Subject {
     std::vector<Op> hist;
     std::map<Edge, int> ghosts;
     unsigned removals = 0;
+    bool notRejected = false; // a call that had to be rejected was not (C07's verdict): the history is abandoned
     explicit Subject(unsigned n0) : g(n0) {
         m.directed = directed;
         m.n = n0;
@@ -121,6 +128,7 @@ template <class G> struct Subject {
         }
     }
     bool isNoop(const Op &op) const {
+        if (op.rejected) return true;
         switch (op.kind) {
         case ADD: return !op.force && m.has(op.i, op.j);
         case REMOVE: return !m.has(op.i, op.j);
@@ -151,10 +159,14 @@ template <class G> struct Subject {
             case LOOPS: g.removeSelfLoops(); break;
             case VERTEX: g.removeVertexFromEdgeList(op.i); break;
             case CLEAR: g.clearEdges(); break;
-            case RESIZE: g.resize(g.getSize() + op.k); break;
+            case RESIZE: g.resize(op.rejected ? op.k : g.getSize() + op.k); break;
             case DEDUP: g.removeDuplicateEdges(); break;
             }
         }, &what);
+        if (op.rejected) {
+            if (ex != (op.kind == RESIZE ? EX_INVALID_ARGUMENT : EX_OUT_OF_RANGE)) notRejected = true;
+            return "";
+        }
         if (ex != EX_NONE) return std::string("valid call threw ") + excName(ex) + " (" + what + ")";
         switch (op.kind) {
         case ADD: modelAdd(op.i, op.j, op.w, op.force); break;
@@ -210,6 +222,7 @@ template <class G> struct Monitor {
     std::string cls;
     ObsCounters oc;
     uint64_t callsByKind[KIND_COUNT] = {0};
+    uint64_t rejectedCalls = 0, rejectedThenGrown = 0, abandonedNotRejected = 0, hugeWeightCalls = 0, totalsBeyondDouble = 0;
     uint64_t specialWeights = 0, longHistories = 0, scaleHistories = 0, maxDegreeSeen = 0, calls = 0, wPresent = 0, wAbsent = 0, totExact = 0, totTol = 0, matCells = 0, noopChecks = 0, setPresent = 0, setAbsent = 0, setDescending = 0;
     uint64_t after[G_COUNT] = {0};
     Monitor(Reporter &R, const HistConfig &cfg, std::string cls) : R(R), cfg(cfg), cls(std::move(cls)) {}
@@ -225,6 +238,13 @@ template <class G> struct Monitor {
         R.count("total_weight_tolerance_comparisons", totTol);
         R.count("weight_matrix_cells", matCells);
         R.count("noop_exactness_checks", noopChecks);
+        R.count("calls_with_a_weight_above_half_of_DBL_MAX", hugeWeightCalls);
+        R.count("total_weight_checks_skipped_sum_beyond_double_range", totalsBeyondDouble);
+        hugeWeightCalls = totalsBeyondDouble = 0;
+        R.count("rejected_calls_inside_histories", rejectedCalls);
+        R.count("rejected_calls_followed_by_resize_making_the_index_valid", rejectedThenGrown);
+        R.count("histories_abandoned_call_not_rejected", abandonedNotRejected);
+        rejectedCalls = rejectedThenGrown = abandonedNotRejected = 0;
         R.count("setEdgeWeight_with_ulp_neighbour_tiny_or_negative_zero", specialWeights);
         specialWeights = 0;
         R.count("long_histories_2000_to_4500_calls", longHistories);
@@ -255,6 +275,8 @@ template <class G> struct Monitor {
                     o << "getTotalWeight: expected exactly " << (double)want << " got " << (double)got << " (all weights dyadic, every partial sum exact)";
                     return o.str();
                 }
+            } else if (!(std::fabs(want) < 1.7976931348623157e308L)) {
+                ++totalsBeyondDouble; // the sum itself is not a double: nothing is promised about how it is reported
             } else {
                 ++totTol;
                 long double tol = 1e-9L * (1 + s.m.everAdded);
@@ -349,7 +371,14 @@ template <class G> struct Monitor {
         }
         return "";
     }
+    // some rounding-mode histories carry weights near the top of the double range: two of them do not add up in a double, so
+    // an accumulator narrower than the one the total is kept in shows as inf / nan instead of a rounding error
+    bool hugeWeights = false;
     double genWeight(Rng &r, bool exact) {
+        if (hugeWeights && !exact && r.chance(1, 3)) {
+            ++hugeWeightCalls;
+            return (r.chance(1, 2) ? 1.0 : -1.0) * (0.5 + 0.49 * r.unit()) * 1.7976931348623157e308;
+        }
         if (exact) {
             unsigned c = r.u(10);
             if (c == 0) return 0.0;
@@ -447,9 +476,12 @@ template <class G> struct Monitor {
         }
         if (scale) exact = (sub / cfg.scaleEvery) % 2 == 0;
         else if (checkEvery == 16) exact = (sub / (cfg.scaleEvery * 4)) % 2 == 0;
+        hugeWeights = !exact && checkEvery == 1 && sub % 7 == 3;
         Subject<G> s(n0);
         Op prevOp;
         bool havePrev = false;
+        unsigned pendingGrow = 0;
+        bool withRejected = sub % 3 == 1; // every third history has calls in it that the library must reject
         R.describeCase = [&] {
             return "{\"class\": " + q(cls) + ", \"weights\": " + q(exact ? "exact-dyadic" : "rounding") + ", \"start_size\": " + std::to_string(n0) + ", \"history\": " + s.histJson() +
                    ", \"model_after\": " + q(s.m.str()) + "}";
@@ -463,17 +495,51 @@ template <class G> struct Monitor {
         for (unsigned step = 0; step < len; ++step) {
             Op op = gen(r, s, pp, style, step, len, maxN, exact);
             if (havePrev && r.chance(1, 12)) op = prevOp; // the same call twice in a row
-            prevOp = op;
-            havePrev = true;
-            bool noop = s.isNoop(op) && (op.kind == ADD || op.kind == REMOVE); // re-adding an existing edge / removing an absent one changes nothing
+            if (withRejected) {
+                if (pendingGrow) {
+                    op = Op();
+                    op.kind = RESIZE;
+                    op.k = pendingGrow;
+                    pendingGrow = 0;
+                    ++rejectedThenGrown;
+                } else if (r.chance(1, checkEvery > 1 ? 40 : 9)) {
+                    // a call the library must reject (see pickRejected), with the weight the generator would have used next
+                    Op valid = op;
+                    RejectedArgs x = pickRejected(r, s.m.n);
+                    op = Op();
+                    op.rejected = true;
+                    if (x.shrink) {
+                        op.kind = RESIZE;
+                        op.k = x.newSize;
+                    } else {
+                        static const int kinds[] = {ADD, ADD, SETW, SETW, SETW, REMOVE, VERTEX};
+                        op.kind = kinds[r.u(7)];
+                        op.i = x.a;
+                        op.j = x.b;
+                        op.w = (valid.kind == ADD || valid.kind == SETW) ? valid.w : 1.5;
+                        if (op.kind == VERTEX && op.i < s.m.n) op.i = op.j;
+                        if (x.growBy && s.m.n + x.growBy <= maxN + 4 && r.chance(2, 3)) pendingGrow = x.growBy;
+                    }
+                    ++rejectedCalls;
+                }
+            }
+            if (!op.rejected) {
+                prevOp = op;
+                havePrev = true;
+            }
+            bool noop = !op.rejected && s.isNoop(op) && (op.kind == ADD || op.kind == REMOVE); // re-adding an existing edge / removing an absent one changes nothing
             std::vector<std::vector<VertexIndex>> before;
             if (noop) before = orderedLists(s.g);
-            if (op.kind == SETW) {
+            if (op.kind == SETW && !op.rejected) {
                 if (s.m.has(op.i, op.j)) ++setPresent; else ++setAbsent;
                 if (op.i > op.j) ++setDescending;
             }
             std::string err = s.apply(op);
             ++calls; ++callsByKind[op.kind];
+            if (s.notRejected) {
+                ++abandonedNotRejected;
+                return;
+            }
             if (!err.empty()) {
                 R.violation(cls + "/" + kindName(op.kind) + "/exception", err);
                 return;
